@@ -549,6 +549,12 @@ class SpecEval(object):
             elif sort == 'Bool':
                 c = z3.Const(qn + 'b', BoolS)
                 extra[nm] = c
+            elif sort == 'KeySet':
+                c = z3.Const(qn + 'k', KeySet)
+                extra[nm] = c
+            elif sort == 'KeyMap':
+                c = z3.Const(qn + 'm', KeyMap)
+                extra[nm] = c
             else:
                 c = z3.Const(qn + 'i', IntS)
                 extra[nm] = c
